@@ -1,15 +1,413 @@
-//! Workload W3 (stub, replaced below)
+//! Workload W3: generated include graphs on a simulated directory tree.
+//!
+//! The generator writes plain text; the reference model (`model.rs`) reads that text back, so the
+//! two share nothing but the file system.
+
 use crate::exec::{Target, TaskSpec};
 use crate::prng::Rng;
-use crate::simfs::FsSpec;
-#[derive(Clone, Copy, PartialEq)]
-pub enum Mode { Plain, Hostile }
-pub struct Graph { pub fs: FsSpec, pub entry: String }
-pub fn generate(_rng: &mut Rng, _mode: Mode) -> Graph {
-    Graph { fs: crate::plan::snippet_fs("static const int x = 1;\n"), entry: "test.rssl".into() }
+use crate::simfs::{FsSpec, Policy, dir_of};
+
+#[derive(Clone, Copy, PartialEq, Debug)]
+pub enum Mode {
+    /// flat unique names: the include string is the file identity
+    Plain,
+    /// directory tree, relative resolution, aliases, same leaf name in several directories
+    Hostile,
 }
-pub fn compile_task(g: &Graph, _rng: &mut Rng) -> TaskSpec {
-    let mut t = TaskSpec::compile(0, &g.entry, Target::Dx);
+
+#[derive(Clone, Copy, PartialEq, Debug)]
+pub enum Form {
+    /// marker lines are bare token lists: observed through preprocess + prepare_tokens
+    Pre,
+    /// marker lines are `static const int m = v ;` declarations: observed through compile()
+    Compile,
+}
+
+#[derive(Clone, Debug)]
+pub struct Graph {
+    pub fs: FsSpec,
+    pub entry: String,
+    pub defines: Vec<(String, String)>,
+    pub form: Form,
+    pub mode: Mode,
+}
+
+const MACROS: &[&str] = &["A", "B", "C", "D", "E", "F"];
+const PLAIN: &[&str] = &["p", "q", "r"];
+
+fn weighted(rng: &mut Rng, weights: &[u64]) -> usize {
+    let total: u64 = weights.iter().sum();
+    let mut x = rng.below(total);
+    for (i, w) in weights.iter().enumerate() {
+        if x < *w {
+            return i;
+        }
+        x -= w;
+    }
+    weights.len() - 1
+}
+
+fn relative(from_dir: &str, to: &str) -> String {
+    let f: Vec<&str> = from_dir.split('/').filter(|s| !s.is_empty()).collect();
+    let t: Vec<&str> = to.split('/').collect();
+    let mut common = 0;
+    while common < f.len() && common + 1 < t.len() && f[common] == t[common] {
+        common += 1;
+    }
+    let mut parts: Vec<String> = Vec::new();
+    for _ in common..f.len() {
+        parts.push("..".into());
+    }
+    for p in &t[common..] {
+        parts.push(p.to_string());
+    }
+    parts.join("/")
+}
+
+fn spell(rng: &mut Rng, mode: Mode, parent: &str, target: &str) -> String {
+    if mode == Mode::Plain {
+        return target.to_string();
+    }
+    let rel = relative(dir_of(parent), target);
+    let leaf = target.rsplit('/').next().unwrap_or(target).to_string();
+    let alias = |p: &str| -> String {
+        match p.split_once('/') {
+            Some((d, rest)) if d != ".." && d != "." => format!("{d}/../{d}/{rest}"),
+            _ => format!("./{p}"),
+        }
+    };
+    match weighted(rng, &[5, 3, 2, 2, 2]) {
+        0 => rel,
+        1 => target.to_string(),
+        2 => format!("./{rel}"),
+        3 => alias(&rel),
+        _ => leaf,
+    }
+}
+
+fn atom(rng: &mut Rng, form: Form, own_markers: &[String]) -> String {
+    match form {
+        Form::Pre => match weighted(rng, &[5, 2, 3]) {
+            0 => rng.pick(MACROS).to_string(),
+            1 => rng.pick(PLAIN).to_string(),
+            _ => rng.range(1, 9).to_string(),
+        },
+        Form::Compile => match weighted(rng, &[5, 4, if own_markers.is_empty() { 0 } else { 1 }]) {
+            0 => rng.pick(MACROS).to_string(),
+            1 => rng.range(1, 9).to_string(),
+            _ => rng.pick(own_markers).clone(),
+        },
+    }
+}
+
+fn condition(rng: &mut Rng) -> String {
+    let m = rng.pick(MACROS);
+    match weighted(rng, &[1, 2, 3, 3, 2, 3, 3]) {
+        0 => "#if 0".to_string(),
+        1 => "#if 1".to_string(),
+        2 => format!("#if {m}"),
+        3 => format!("#if defined({m})"),
+        4 => format!("#if !defined({m})"),
+        5 => format!("#ifdef {m}"),
+        _ => format!("#ifndef {m}"),
+    }
+}
+
+fn elif(rng: &mut Rng) -> String {
+    let m = rng.pick(MACROS);
+    match weighted(rng, &[1, 2, 4]) {
+        0 => "#elif 0".to_string(),
+        1 => "#elif 1".to_string(),
+        _ => format!("#elif defined({m})"),
+    }
+}
+
+fn hash(rng: &mut Rng, directive: &str) -> String {
+    // `#x`, `# x`, `  #x`
+    let body = directive.strip_prefix('#').unwrap_or(directive);
+    match weighted(rng, &[8, 1, 1]) {
+        0 => format!("#{body}"),
+        1 => format!("# {body}"),
+        _ => format!("  #{body}"),
+    }
+}
+
+pub fn generate(rng: &mut Rng, mode: Mode, form: Form) -> Graph {
+    let n = [2usize, 3, 4, 5, 6, 7, 8][weighted(rng, &[3, 4, 4, 3, 2, 1, 1])];
+
+    // paths
+    let mut paths: Vec<String> = Vec::new();
+    match mode {
+        Mode::Plain => {
+            paths.push("main.rssl".into());
+            for i in 1..n {
+                paths.push(format!("f{i}.h"));
+            }
+        }
+        Mode::Hostile => {
+            paths.push(if rng.chance(1, 3) {
+                "src/main.rssl".into()
+            } else {
+                "main.rssl".into()
+            });
+            let dirs = ["", "a", "b", "a/c", "src"];
+            let leaves = ["x.h", "y.h", "z.h", "c.h"];
+            for i in 1..n {
+                let mut chosen = None;
+                for _ in 0..8 {
+                    let d = *rng.pick(&dirs);
+                    let l = *rng.pick(&leaves);
+                    let p = if d.is_empty() {
+                        l.to_string()
+                    } else {
+                        format!("{d}/{l}")
+                    };
+                    if !paths.contains(&p) {
+                        chosen = Some(p);
+                        break;
+                    }
+                }
+                paths.push(chosen.unwrap_or_else(|| format!("f{i}.h")));
+            }
+        }
+    }
+    let policy = match mode {
+        Mode::Plain => Policy::Flat,
+        Mode::Hostile => match weighted(rng, &[4, 1, 1]) {
+            0 => Policy::ParentRelative,
+            1 => Policy::SearchPath(vec!["a".into()]),
+            _ => Policy::SearchPath(vec!["b".into(), "a/c".into()]),
+        },
+    };
+
+    // include edges: a DAG plus at most one back edge
+    let mut edges: Vec<Vec<usize>> = vec![Vec::new(); n];
+    for (i, e) in edges.iter_mut().enumerate() {
+        if i + 1 >= n {
+            break;
+        }
+        let k = [0usize, 1, 1, 2, 2, 3][rng.below(6) as usize];
+        for _ in 0..k {
+            e.push(rng.range(i as u64 + 1, n as u64 - 1) as usize);
+        }
+    }
+    if edges[0].is_empty() && n > 1 {
+        edges[0].push(1);
+    }
+    if rng.chance(1, 6) {
+        let from = rng.below(n as u64) as usize;
+        let to = rng.below(from as u64 + 1) as usize;
+        edges[from].push(to);
+    }
+
+    // an #if that opens in a header and closes in the includer (paste semantics)
+    let split_chain: Option<(usize, usize)> = if rng.chance(1, 12) {
+        let from = rng.below(n as u64) as usize;
+        edges[from].first().map(|to| (from, *to))
+    } else {
+        None
+    };
+
+    let cat_prelude = rng.chance(1, 2);
+    let mut fs = FsSpec::new(policy);
+
+    for i in 0..n {
+        let mut lines: Vec<String> = Vec::new();
+        let protect_weights = match (i, form) {
+            (0, _) => [9, 1, 0],
+            (_, Form::Compile) => [1, 4, 4],
+            (_, Form::Pre) => [3, 3, 3],
+        };
+        let protection = weighted(rng, &protect_weights);
+        if i == 0 && cat_prelude {
+            lines.push("#define CAT(a,b) a##b".into());
+        }
+        match protection {
+            1 => lines.push(hash(rng, "#pragma once")),
+            2 => {
+                lines.push(format!("#ifndef G_{i}"));
+                lines.push(format!("#define G_{i}"));
+            }
+            _ => {}
+        }
+
+        let slots = rng.range(3, 10) as usize;
+        let mut inc_at: Vec<(usize, usize)> = edges[i]
+            .iter()
+            .map(|t| (rng.below(slots as u64) as usize, *t))
+            .collect();
+        inc_at.sort();
+        let mut open: Vec<bool> = Vec::new(); // has_else per open #if
+        let mut own_markers: Vec<String> = Vec::new();
+        let mut counter = 0;
+        for slot in 0..slots {
+            for (_, t) in inc_at.iter().filter(|(s, _)| *s == slot) {
+                let s = spell(rng, mode, &paths[i], &paths[*t]);
+                let quoted = if rng.chance(1, 5) {
+                    format!("<{s}>")
+                } else {
+                    format!("\"{s}\"")
+                };
+                lines.push(hash(rng, &format!("#include {quoted}")));
+                if split_chain == Some((i, *t)) {
+                    lines.push("#endif".into());
+                }
+            }
+            let w = [
+                8,
+                3,
+                1,
+                if open.len() < 3 { 2 } else { 0 },
+                if open.last() == Some(&false) { 1 } else { 0 },
+                if open.last() == Some(&false) { 1 } else { 0 },
+                if !open.is_empty() { 2 } else { 0 },
+                1,
+                if form == Form::Pre { 1 } else { 0 },
+            ];
+            match weighted(rng, &w) {
+                0 => {
+                    counter += 1;
+                    let name = format!("m_{i}_{counter}");
+                    match form {
+                        Form::Pre => {
+                            let k = rng.range(1, 3);
+                            let vals: Vec<String> =
+                                (0..k).map(|_| atom(rng, form, &own_markers)).collect();
+                            lines.push(format!("{name} {} ;", vals.join(" ")));
+                        }
+                        Form::Compile => {
+                            let a = atom(rng, form, &own_markers);
+                            let expr = if rng.chance(1, 3) {
+                                format!("{a} + {}", atom(rng, form, &own_markers))
+                            } else {
+                                a
+                            };
+                            lines.push(format!("static const int {name} = {expr} ;"));
+                            own_markers.push(name);
+                        }
+                    }
+                }
+                1 => {
+                    let m = rng.pick(MACROS);
+                    let body = match form {
+                        Form::Pre => {
+                            let k = [0usize, 1, 1, 1, 2][rng.below(5) as usize];
+                            (0..k)
+                                .map(|_| atom(rng, form, &[]))
+                                .collect::<Vec<_>>()
+                                .join(" ")
+                        }
+                        Form::Compile => match weighted(rng, &[14, 5, 1]) {
+                            0 => rng.range(1, 9).to_string(),
+                            1 => rng.pick(MACROS).to_string(),
+                            _ => String::new(),
+                        },
+                    };
+                    lines.push(hash(rng, format!("#define {m} {body}").trim_end()));
+                }
+                2 => {
+                    let m = *rng.pick(MACROS);
+                    lines.push(hash(rng, &format!("#undef {m}")))
+                }
+                3 => {
+                    let c = condition(rng);
+                    lines.push(hash(rng, &c));
+                    open.push(false);
+                }
+                4 => {
+                    lines.push(hash(rng, "#else"));
+                    *open.last_mut().unwrap() = true;
+                }
+                5 => {
+                    let c = elif(rng);
+                    lines.push(hash(rng, &c))
+                }
+                6 => {
+                    lines.push(hash(rng, "#endif"));
+                    open.pop();
+                }
+                7 => lines.push(
+                    ["", "// comment", "/* comment */", "   "][rng.below(4) as usize].to_string(),
+                ),
+                _ => {
+                    counter += 1;
+                    let r = if rng.chance(1, 2) {
+                        ["u", "v", "w"][rng.below(3) as usize].to_string()
+                    } else {
+                        rng.range(1, 9).to_string()
+                    };
+                    let l = ["u", "v", "w"][rng.below(3) as usize];
+                    lines.push(format!("m_{i}_{counter} CAT({l},{r}) ;"));
+                }
+            }
+        }
+        // includes scheduled past the last slot cannot exist; close what is open
+        let leave_open = rng.chance(1, 25);
+        while let Some(_e) = open.pop() {
+            if leave_open && open.is_empty() {
+                break;
+            }
+            lines.push("#endif".into());
+        }
+        if let Some((_, to)) = split_chain
+            && to == i
+            && i != 0
+        {
+            lines.push(condition(rng));
+        }
+        if protection == 2 {
+            lines.push("#endif".into());
+        }
+        let mut text = lines.join("\n");
+        if !rng.chance(1, 8) {
+            text.push('\n');
+        }
+        fs.files.insert(paths[i].clone(), text);
+    }
+
+    // API-level defines
+    let nd = [0usize, 0, 1, 1, 2, 3][rng.below(6) as usize];
+    let mut names: Vec<&str> = MACROS.to_vec();
+    rng.shuffle(&mut names);
+    let mut defines = Vec::new();
+    for name in names.iter().take(nd) {
+        let v = match form {
+            Form::Pre => match weighted(rng, &[3, 2, 1, 1, 2]) {
+                0 => rng.range(0, 9).to_string(),
+                1 => rng.pick(PLAIN).to_string(),
+                2 => String::new(),
+                3 => format!("{} {}", rng.pick(PLAIN), rng.range(1, 9)),
+                _ => rng.pick(MACROS).to_string(),
+            },
+            Form::Compile => match weighted(rng, &[5, 1, 2, 1]) {
+                0 => rng.range(0, 9).to_string(),
+                1 => String::new(),
+                2 => rng.pick(MACROS).to_string(),
+                _ => "1 + 2".to_string(),
+            },
+        };
+        defines.push((name.to_string(), v));
+    }
+
+    Graph {
+        fs,
+        entry: paths[0].clone(),
+        defines,
+        form,
+        mode,
+    }
+}
+
+pub fn compile_task(g: &Graph, rng: &mut Rng) -> TaskSpec {
+    let target = *rng.pick(&[Target::Dx, Target::Vk, Target::Msl]);
+    let mut t = TaskSpec::compile(0, &g.entry, target);
     t.no_pipeline = true;
+    t.defines = g.defines.clone();
+    t
+}
+
+pub fn preprocess_task(g: &Graph) -> TaskSpec {
+    let mut t = TaskSpec::preprocess(0, &g.entry);
+    t.defines = g.defines.clone();
     t
 }
